@@ -83,6 +83,7 @@ type rec struct {
 	Sites   []string `json:"sites,omitempty"`
 	Outcome string   `json:"outcome,omitempty"`
 	Sample  any      `json:"sample,omitempty"`
+	Stats   map[string]int `json:"stats,omitempty"`
 }
 
 // ---- (i) map iteration order ---------------------------------------------------------
@@ -584,7 +585,7 @@ func main() {
 		return
 	}
 	if pool.IsWorker() {
-		pool.Serve(map[string]pool.Handler{"order": orderWorker, "insertion": insertionWorker, "pair": pairWorker})
+		pool.Serve(map[string]pool.Handler{"order": orderWorker, "insertion": insertionWorker, "pair": pairWorker, "hist": histWorker, "bulk": bulkWorker})
 	}
 	c := ev.New("C20")
 	defer runner.Cleanup()
@@ -603,8 +604,35 @@ func main() {
 	for _, p := range programs {
 		shards = append(shards, pool.Shard{Kind: "pair", Arg: p.Name})
 	}
+	maxLen := 5
+	if !c.Quick() {
+		maxLen = 7
+	}
+	for n := 1; n <= maxLen; n++ {
+		of := 1
+		for i := 3; i < n; i++ {
+			of *= 4
+		}
+		for s := 0; s < of; s++ {
+			shards = append(shards, pool.Shard{Kind: "hist", Arg: map[string]int{"Len": n, "Shard": s, "Of": of}})
+		}
+	}
+	for s := 0; s < 8; s++ {
+		shards = append(shards, pool.Shard{Kind: "bulk", Arg: map[string]any{"Quick": c.Quick(), "Shard": s, "Of": 8}})
+	}
+	if only := os.Getenv("C20_ONLY"); only != "" {
+		// development aid: run one family only (never used by vcheck's normal invocation)
+		var keep []pool.Shard
+		for _, s := range shards {
+			if strings.Contains(only, s.Kind) {
+				keep = append(keep, s)
+			}
+		}
+		shards = keep
+	}
 	var total int64
 	allSites := map[string]bool{}
+	routeStats := map[string]int64{}
 	pool.Run(shards, pool.Options{HangTimeout: 5 * time.Minute}, func(si int, rb json.RawMessage) {
 		var r rec
 		json.Unmarshal(rb, &r)
@@ -616,6 +644,9 @@ func main() {
 			}
 			if r.Outcome != "" {
 				c.Outcome(r.Outcome)
+			}
+			for k, v := range r.Stats {
+				routeStats[k] += int64(v)
 			}
 		case "fail":
 			c.Fail(r.Key, r.Clause, r.Size, r.Case, r.Detail)
@@ -636,7 +667,9 @@ func main() {
 	build := exec.Command("go", "build", "-o", bin, ".")
 	build.Dir = repo
 	build.Env = append(os.Environ(), "GOFLAGS=-mod=mod", "GOPROXY=off")
-	if out, err := build.CombinedOutput(); err != nil {
+	if os.Getenv("C20_ONLY") != "" {
+		// development aid: the CLI repetitions are skipped
+	} else if out, err := build.CombinedOutput(); err != nil {
 		c.HarnessError("building the CLI failed: %v %s", err, out)
 	} else {
 		dir, _ := os.MkdirTemp("/dev/shm", "c20-cli-")
@@ -669,7 +702,8 @@ func main() {
 	c.Set("ordered_pairs", len(programs)*len(programs))
 	c.Assume("nondeterminism that is not routed through a Go map range with an ordered key type (pointer-keyed maps, time, OS, addresses) is not controlled; Go pointer values printed inside diagnostics are masked")
 	c.Assume("order dependences that need three or more deviating range sites at once are outside the bound")
-	if len(sites) < 5 {
+	c.Set("enumeration_routes", routeStats)
+	if len(sites) < 5 && os.Getenv("C20_ONLY") == "" {
 		c.HarnessError("vacuous: only %d range-over-map sites were reached", len(sites))
 	}
 	c.Finish(int64(len(programs)*len(programs)+len(sites)), total, total, fmt.Sprintf("%d pool programs x (all-ascending baseline + every single-site deviation incl. all permutations of maps <= 4 entries + every pair of deviating sites); all insertion sequences of <= 4 distinct keys from a pool of 6 into arrays and objects; all %d ordered pairs (A;B) vs B alone in a new process; CLI repetitions", len(programs), len(programs)*len(programs)))
